@@ -147,6 +147,11 @@ class BaseNode(Node):
         # copy value type modify values and units
         value = self.value.copy()
         value.value = self.cast_value(node.value_raw)
+        if value.value is None:
+            # 'none' empties the node: it stays defined, with the units of its definition
+            value.unit = self.units_raw
+            self.value = value
+            return
         if isinstance(value, (IntegerType, FloatType)):
             value.unit = node.units_raw
             value.convert(self.units_raw, env)
